@@ -29,10 +29,15 @@ CONSTANTS TopicSeq,        \* sequence of topic names, e.g. <<"tk","tu">>
           FixMetaAcl,      \* TRUE: repaired tree (Metadata auto-creates only for principals that may create); FALSE: pinned tree
           DevNoAclOn,      \* deviation: set of request types whose ACL check is missing
           DevGateAfterAppend,   \* deviation: "none" | "lease" | "acl": that Produce guard is evaluated after the append
-          DevLeaseCheckSkipped  \* deviation: Produce ignores the lease result
+          DevLeaseCheckSkipped, \* deviation: Produce ignores the lease result
+          DevFetchAclOnRequestName, \* deviation: Fetch authorizes the request's name field (empty when the topic is addressed by id)
+          DevStaleOwnedOnSessionReplace  \* deviation: replacing a dead lease session keeps the old ownership map
 VARIABLES auto, topics, nparts, recs, opened, health, storeUp, etcdOwner, aOwns, closed, leaseDown,
+          sessDead,    \* the broker's lease session has expired in etcd and the manager has not processed it yet
+          monParked,   \* the manager's session monitor for that session has not run yet
           last, nreq, nenv, done, hist
-vars == <<auto, topics, nparts, recs, opened, health, storeUp, etcdOwner, aOwns, closed, leaseDown, last, nreq, nenv, done, hist>>
+lvars == <<sessDead, monParked>>
+vars == <<auto, topics, nparts, recs, opened, health, storeUp, etcdOwner, aOwns, closed, leaseDown, lvars, last, nreq, nenv, done, hist>>
 
 Topics == {TopicSeq[i] : i \in DOMAIN TopicSeq}
 PartIds == 0..(NP - 1)
@@ -46,12 +51,14 @@ Self == "A"
 AllAtoms == ({"produce", "fetch"} \X (Topics \cup {"*"}))
             \cup ({"group_read", "group_write", "group_admin"} \X (Groups \cup {"*"}))
             \cup {<<"admin", "cluster">>}
-Allowed(perms, a, n) == <<a, n>> \in perms \/ <<a, "*">> \in perms
+\* perms = the principal's ACL entry [allow, deny, dflt] (acl.Authorizer.Allows: deny rules first, then allow rules, then default)
+Allowed(perms, a, n) == /\ <<a, n>> \notin perms.deny /\ <<a, "*">> \notin perms.deny
+                        /\ (<<a, n>> \in perms.allow \/ <<a, "*">> \in perms.allow \/ perms.dflt)
 IsAdmin(perms) == Allowed(perms, "admin", "cluster")
 \* the check handler.Handle performs for this request type ("" = none)
 ChkAction(api) ==
   CASE api = "Produce" -> "produce"
-    [] api \in {"Fetch", "ListOffsets", "ListOffsetsLatest", "ListOffsetsEarliest", "OffsetForLeaderEpoch", "DescribeConfigs"} -> "fetch"
+    [] api \in {"Fetch", "FetchById", "ListOffsets", "ListOffsetsLatest", "ListOffsetsEarliest", "OffsetForLeaderEpoch", "DescribeConfigs"} -> "fetch"
     [] api \in {"JoinGroup", "SyncGroup", "Heartbeat", "LeaveGroup", "OffsetCommit"} -> "group_write"
     [] api \in {"OffsetFetch", "DescribeGroups", "ListGroups"} -> "group_read"
     [] api = "DeleteGroups" -> "group_admin"
@@ -65,6 +72,7 @@ Denied(api, perms, name, names) ==
   IF a = "" \/ api \in DevNoAclOn THEN FALSE
   ELSE IF a = "admin" THEN ~IsAdmin(perms)
   ELSE IF api \in AllOrNothing THEN \E n \in names : ~Allowed(perms, a, n)
+  ELSE IF api = "FetchById" /\ DevFetchAclOnRequestName THEN ~Allowed(perms, a, "")
   ELSE ~Allowed(perms, a, name)
 MayCreate(perms, n) == IsAdmin(perms) \/ Allowed(perms, "produce", n) \/ Allowed(perms, "fetch", n)
 
@@ -75,11 +83,19 @@ Rel(api, names) ==
   ELSE IF a = "" THEN {}
   ELSE IF a = "admin" THEN {<<"admin", "cluster">>}
   ELSE {a} \X (names \cup {"*"})
+Acl(allow, deny, dflt) == [allow |-> allow, deny |-> deny, dflt |-> dflt]
 PermChoices(api, names) ==
   LET rel == Rel(api, names)
       others == AllAtoms \ rel
+      specific == {at \in rel : at[2] # "*"}
       subs == IF RichPerms THEN {S \in SUBSET rel : Cardinality(S) <= 2 \/ S = rel} ELSE {{}, rel}
-  IN {S \cup x : S \in subs, x \in {{}, others}}
+      denies == IF RichPerms THEN {D \in SUBSET specific : D # {} /\ Cardinality(D) <= 2} ELSE {D \in {specific} : D # {}}
+  IN \* allow rules only, default deny
+     {Acl(S \cup x, {}, FALSE) : S \in subs, x \in {{}, others}}
+     \* everything allowed by rules, some names denied explicitly (deny rules win)
+     \cup {Acl(AllAtoms, D, FALSE) : D \in denies}
+     \* default policy allow, some names denied explicitly
+     \cup {Acl({}, D, TRUE) : D \in denies \cup {{}}}
 
 \* ---------------------------------------------------------------- request shapes
 NameSets == {S \in SUBSET Topics : S # {}}
@@ -95,7 +111,7 @@ OneGroup == {<< <<g, -1>> >> : g \in Groups}
 GroupChoices == OneGroup \cup (IF Cardinality(Groups) >= 2 THEN {<< <<"gk", -1>>, <<"gu", -1>> >>} ELSE {})
 \* targets = sequence of <<name, partition>>
 Targets(api) ==
-  CASE api \in {"Produce", "Fetch"} -> PartChoices
+  CASE api \in {"Produce", "Fetch", "FetchById"} -> PartChoices
     [] api \in {"ListOffsetsLatest", "ListOffsetsEarliest"} -> OnePart
     [] api \in {"Metadata", "OffsetForLeaderEpoch", "ListOffsets"} -> TopicChoices
     [] api \in {"DescribeConfigs", "AlterConfigs", "CreatePartitions", "CreateTopics", "DeleteTopics"} -> OneTopic
@@ -104,12 +120,14 @@ Targets(api) ==
     [] api = "ListGroups" -> {<< <<"*", -1>> >>}
     [] OTHER -> {<< <<"", -1>> >>}          \* ApiVersions, DescribeBrokerConfigs
 \* "ListOffsetsLatest"/"ListOffsetsEarliest" are the two timestamp flavours of ListOffsets (-1 reads the store, -2 opens the log)
-WireApi(api) == IF api \in {"ListOffsetsLatest", "ListOffsetsEarliest"} THEN "ListOffsets" ELSE api
+\* "FetchById" is Fetch v13 addressing topics by topic id (the request's name field is empty)
+WireApi(api) == IF api \in {"ListOffsetsLatest", "ListOffsetsEarliest"} THEN "ListOffsets" ELSE IF api = "FetchById" THEN "Fetch" ELSE api
 NamesOf(tg) == {tg[i][1] : i \in DOMAIN tg}
 \* a partition that does not exist in an existing topic is never addressed (getPartitionLog would spin: see NOTES.md)
 ValidTargets(api, tg) ==
-  api \in {"Produce", "Fetch", "ListOffsetsLatest", "ListOffsetsEarliest"} =>
-     \A i \in DOMAIN tg : (tg[i][1] \in topics => tg[i][2] < nparts[tg[i][1]])
+  /\ api \in {"Produce", "Fetch", "FetchById", "ListOffsetsLatest", "ListOffsetsEarliest"} =>
+       \A i \in DOMAIN tg : (tg[i][1] \in topics => tg[i][2] < nparts[tg[i][1]])
+  /\ api = "FetchById" => \A i \in DOMAIN tg : tg[i][1] \in topics      \* only an existing topic has an id
 
 \* ---------------------------------------------------------------- initial state
 Init == /\ auto \in AutoSet
@@ -117,7 +135,8 @@ Init == /\ auto \in AutoSet
         /\ recs = [x \in TP |-> 0] /\ opened = {}
         /\ health = "healthy" /\ storeUp = TRUE
         /\ etcdOwner = [x \in TP |-> ""] /\ aOwns = {} /\ closed = FALSE /\ leaseDown = FALSE
-        /\ last = [api |-> "init", perms |-> {}, leasing |-> Leasing, storeUp |-> TRUE, leaseUp |-> TRUE, items |-> <<>>, changed |-> {}]
+        /\ sessDead = FALSE /\ monParked = FALSE
+        /\ last = [api |-> "init", perms |-> Acl({}, {}, FALSE), leasing |-> Leasing, storeUp |-> TRUE, leaseUp |-> TRUE, items |-> <<>>, changed |-> {}]
         /\ nreq = 0 /\ nenv = 0 /\ done = FALSE /\ hist = <<>>
 
 \* ---------------------------------------------------------------- building blocks
@@ -178,19 +197,19 @@ ProduceAll(st, perms, tg, i, names, ownsAfter, ownerAfter) ==
        IN [st |-> rest.st, items |-> <<r.item>> \o rest.items, ch |-> r.ch \cup rest.ch]
 
 \* ---------------------------------------------------------------- Fetch / ListOffsets(-2)
-FetchOne(st, perms, t, p, names) ==
+FetchOne(api, st, perms, t, p, names) ==
   LET x == <<t, p>>
       op == Open(st, t, p)
-  IN IF Denied("Fetch", perms, t, names) THEN [st |-> st, item |-> Plain(t, p, 29), ch |-> {}]
+  IN IF Denied(api, perms, t, names) THEN [st |-> st, item |-> Plain(t, p, 29), ch |-> {}]
      ELSE IF health # "healthy" THEN [st |-> st, item |-> Plain(t, p, BackpressureCode), ch |-> {}]
      ELSE IF ~op.ok THEN [st |-> st, item |-> Plain(t, p, IF storeUp THEN -1 ELSE 7), ch |-> {}]
      ELSE IF t \notin op.st.topics THEN [st |-> op.st, item |-> Plain(t, p, 3), ch |-> op.ch]   \* cached log of a deleted topic
      ELSE [st |-> op.st, item |-> Item(t, p, 0, op.st.recs[x] > 0, "", FALSE, ""), ch |-> op.ch]
-RECURSIVE FetchAll(_, _, _, _, _)
-FetchAll(st, perms, tg, i, names) ==
+RECURSIVE FetchAll(_, _, _, _, _, _)
+FetchAll(api, st, perms, tg, i, names) ==
   IF i > Len(tg) THEN [st |-> st, items |-> <<>>, ch |-> {}]
-  ELSE LET r == FetchOne(st, perms, tg[i][1], tg[i][2], names)
-           rest == FetchAll(r.st, perms, tg, i + 1, names)
+  ELSE LET r == FetchOne(api, st, perms, tg[i][1], tg[i][2], names)
+           rest == FetchAll(api, r.st, perms, tg, i + 1, names)
        IN [st |-> rest.st, items |-> <<r.item>> \o rest.items, ch |-> r.ch \cup rest.ch]
 
 \* ---------------------------------------------------------------- one-target request types
@@ -265,7 +284,7 @@ PerTarget(api, perms, tg) ==      \* OffsetForLeaderEpoch, ListOffsets over seve
 \* ---------------------------------------------------------------- the request action
 Outcome(api, perms, tg, ownsAfter, ownerAfter) ==
   CASE api = "Produce" -> ProduceAll(St0, perms, tg, 1, NamesOf(tg), ownsAfter, ownerAfter)
-    [] api = "Fetch" -> FetchAll(St0, perms, tg, 1, NamesOf(tg))
+    [] api \in {"Fetch", "FetchById"} -> FetchAll(api, St0, perms, tg, 1, NamesOf(tg))
     [] api = "Metadata" -> MetaAll(St0, perms, tg, 1)
     [] api \in {"OffsetForLeaderEpoch", "ListOffsets", "DescribeGroups", "DeleteGroups", "JoinGroup", "SyncGroup", "Heartbeat",
                 "LeaveGroup", "OffsetCommit", "OffsetFetch", "ListGroups"} -> PerTarget(api, perms, tg)
@@ -274,12 +293,20 @@ Outcome(api, perms, tg, ownsAfter, ownerAfter) ==
 Req(api, tg, perms) ==
   /\ nreq < MaxReq /\ ~done
   /\ ValidTargets(api, tg)
+  \* between the expiry of the session and the manager noticing it, only partitions not (stale-)owned are produced to:
+  \* the stale fast path in that window is the lease protocol's expiry-detection latency, not a handler decision
+  /\ (api = "Produce" /\ Leasing /\ sessDead) => \A i \in DOMAIN tg : <<tg[i][1], tg[i][2]>> \notin aOwns
   /\ LET xs == {<<tg[i][1], tg[i][2]>> : i \in DOMAIN tg}
-         acq == IF api = "Produce" /\ Leasing THEN {x \in xs : LeaseOutcome(x) = "acq"} ELSE {}
-         ownsAfter == aOwns \cup acq
+         leased == api = "Produce" /\ Leasing
+         acq == IF leased THEN {x \in xs : LeaseOutcome(x) = "acq"} ELSE {}
+         \* every acquisition attempt goes through getOrCreateSession, which replaces a dead session and (repaired
+         \* design) forgets what was owned under it
+         replaced == leased /\ sessDead /\ \E x \in xs : LeaseOutcome(x) \in {"acq", "other"}
+         ownsAfter == (IF replaced /\ ~DevStaleOwnedOnSessionReplace THEN {} ELSE aOwns) \cup acq
          ownerAfter == [x \in TP |-> IF x \in acq THEN Self ELSE etcdOwner[x]]
          r == Outcome(api, perms, tg, ownsAfter, ownerAfter)
      IN /\ aOwns' = ownsAfter /\ etcdOwner' = ownerAfter
+        /\ sessDead' = (sessDead /\ ~replaced) /\ monParked' = monParked
         /\ topics' = r.st.topics /\ nparts' = r.st.nparts /\ recs' = r.st.recs /\ opened' = r.st.opened
         /\ last' = [api |-> WireApi(api), perms |-> perms, leasing |-> Leasing, storeUp |-> storeUp, leaseUp |-> ~leaseDown, items |-> r.items, changed |-> r.ch]
         /\ done' = (api = "DeleteTopics" /\ r.items[1].code = 0)     \* a schedule ends after a successful topic deletion
@@ -292,28 +319,39 @@ Env(name, arg) == /\ nenv < MaxEnv /\ ~done /\ nenv' = nenv + 1
                   /\ hist' = Append(hist, [a |-> name, arg |-> arg])
                   /\ last' = [last EXCEPT !.api = "env", !.items = <<>>, !.changed = {}]
 SetHealth(h) == /\ h # health /\ Env("SetHealth", h) /\ health' = h
-                /\ UNCHANGED <<auto, topics, nparts, recs, opened, storeUp, etcdOwner, aOwns, closed, leaseDown, nreq, done>>
+                /\ UNCHANGED <<auto, topics, nparts, recs, opened, storeUp, etcdOwner, aOwns, closed, leaseDown, lvars, nreq, done>>
 SetStore(b) == /\ b # storeUp /\ Env("SetStore", IF b THEN "up" ELSE "down") /\ storeUp' = b
-               /\ UNCHANGED <<auto, topics, nparts, recs, opened, health, etcdOwner, aOwns, closed, leaseDown, nreq, done>>
+               /\ UNCHANGED <<auto, topics, nparts, recs, opened, health, etcdOwner, aOwns, closed, leaseDown, lvars, nreq, done>>
 \* another broker's lease manager acquires a free partition
 ForeignAcquire(i) == /\ Leasing /\ etcdOwner[PartSeq[i]] = "" /\ Env("ForeignAcquire", ToString(i))
                      /\ etcdOwner' = [etcdOwner EXCEPT ![PartSeq[i]] = "B"]
-                     /\ UNCHANGED <<auto, topics, nparts, recs, opened, health, storeUp, aOwns, closed, leaseDown, nreq, done>>
+                     /\ UNCHANGED <<auto, topics, nparts, recs, opened, health, storeUp, aOwns, closed, leaseDown, lvars, nreq, done>>
 \* graceful shutdown: ReleaseAll (session closed, keys revoked)
-CloseLease == /\ Leasing /\ ~closed /\ ~leaseDown /\ Env("CloseLease", "")
+CloseLease == /\ Leasing /\ ~closed /\ ~leaseDown /\ ~sessDead /\ ~monParked /\ Env("CloseLease", "")
               /\ closed' = TRUE /\ aOwns' = {}
               /\ etcdOwner' = [x \in TP |-> IF etcdOwner[x] = Self THEN "" ELSE etcdOwner[x]]
-              /\ UNCHANGED <<auto, topics, nparts, recs, opened, health, storeUp, leaseDown, nreq, done>>
+              /\ UNCHANGED <<auto, topics, nparts, recs, opened, health, storeUp, leaseDown, lvars, nreq, done>>
 \* the lease manager loses etcd (client cut off): session dies, local ownership is cleared, keys stay until the TTL
-LeaseDown == /\ Leasing /\ ~closed /\ ~leaseDown /\ Env("LeaseDown", "")
+LeaseDown == /\ Leasing /\ ~closed /\ ~leaseDown /\ ~sessDead /\ ~monParked /\ Env("LeaseDown", "")
              /\ leaseDown' = TRUE /\ aOwns' = {}
-             /\ UNCHANGED <<auto, topics, nparts, recs, opened, health, storeUp, etcdOwner, closed, nreq, done>>
+             /\ UNCHANGED <<auto, topics, nparts, recs, opened, health, storeUp, etcdOwner, closed, lvars, nreq, done>>
+\* the broker's lease session expires in etcd (lease revoked: all its keys vanish); the manager's monitor goroutine for
+\* that session has not run yet (scheduler gate lease.monitor), so the manager still lists the partitions as owned
+SessionExpire == /\ Leasing /\ ~closed /\ ~leaseDown /\ ~sessDead /\ ~monParked /\ aOwns # {} /\ Env("SessionExpire", "")
+                 /\ sessDead' = TRUE /\ monParked' = TRUE
+                 /\ etcdOwner' = [x \in TP |-> IF etcdOwner[x] = Self THEN "" ELSE etcdOwner[x]]
+                 /\ UNCHANGED <<auto, topics, nparts, recs, opened, health, storeUp, aOwns, closed, leaseDown, nreq, done>>
+\* monitorSession runs: it clears the ownership map only if the dead session is still the manager's current session
+MonitorRun == /\ Leasing /\ monParked /\ Env("MonitorRun", "")
+              /\ monParked' = FALSE /\ sessDead' = FALSE
+              /\ aOwns' = IF sessDead THEN {} ELSE aOwns
+              /\ UNCHANGED <<auto, topics, nparts, recs, opened, health, storeUp, etcdOwner, closed, leaseDown, nreq, done>>
 
 Next == \/ \E api \in Apis : \E tg \in Targets(api) : \E perms \in PermChoices(api, NamesOf(tg)) : Req(api, tg, perms)
         \/ \E h \in {"healthy", "degraded", "unavailable"} : SetHealth(h)
         \/ \E b \in BOOLEAN : SetStore(b)
         \/ \E i \in 1..NPart : ForeignAcquire(i)
-        \/ CloseLease \/ LeaseDown
+        \/ CloseLease \/ LeaseDown \/ SessionExpire \/ MonitorRun
 Spec == Init /\ [][Next]_vars
 
 \* ---------------------------------------------------------------- properties (HandlerProps, instantiated with the prediction)
@@ -326,9 +364,9 @@ C19_NoWriteUnlessHeld == P!C19_NoWriteUnlessHeld
 C19_RefusalCode == P!C19_RefusalCode
 C19_NotLeaderForOtherOwner == P!C19_NotLeaderForOtherOwner
 \* internal facts
-OwnsImpliesKey == \A x \in aOwns : etcdOwner[x] = Self
+OwnsImpliesKey == (~sessDead /\ ~DevStaleOwnedOnSessionReplace) => \A x \in aOwns : etcdOwner[x] = Self
 KnownHavePartitions == \A t \in Topics : (t \in topics) = (nparts[t] > 0)
 
-View == <<auto, topics, nparts, recs, opened, health, storeUp, etcdOwner, aOwns, closed, leaseDown, last, nreq, nenv, done>>
+View == <<auto, topics, nparts, recs, opened, health, storeUp, etcdOwner, aOwns, closed, leaseDown, lvars, last, nreq, nenv, done>>
 EmitSched == PrintT(<<"SCHED", ToJson([auto |-> auto, leasing |-> Leasing, steps |-> hist])>>)
 ====
